@@ -50,6 +50,10 @@ z = []
 '''
 
 
+EXTRA_TYPES = ('[T; N]', "&'a T", "&'a [T; N]")
+EXTRA_TRAITS = {'Clone', 'Debug', 'PartialEq', 'Hash'}
+
+
 def compile_ready(it):
     """Valid Rust once the derive_where attributes are removed, with Leaf as every type argument."""
     tps = [p.name for p in it.params if p.kind == 'ty']
@@ -60,6 +64,10 @@ def compile_ready(it):
     if it.ident.rust() in ('isize', 'Option', 'String', 'Vec', 'Box') or it.ident.raw:
         pass
     for p in it.params:
+        if p.kind == 'lt' and not p.bounds.strip():
+            continue              # a lifetime parameter (used by a field of one of the EXTRA_TYPES)
+        if p.kind == 'const' and p.bounds.strip() == 'usize' and p.default is None:
+            continue              # a const parameter
         if p.kind != 'ty' or p.bounds.strip() not in ('', 'Super', 'Clone', "'static") or p.default is not None:
             return False
         if not p.name.isalpha():
@@ -81,7 +89,13 @@ def compile_ready(it):
     for v in it.variants:
         for f in v.fields:
             if bharness.field_kind(f.ty, tps) is None:
+                # arrays over a const parameter and references with a lifetime parameter: they implement the traits of
+                # EXTRA_TRAITS for every `T: All`, `'a`, `N` (not `Default`, `Copy`-independent `Clone` is fine)
+                if f.ty in EXTRA_TYPES and set(bharness.derived_traits(it)) <= EXTRA_TRAITS:
+                    continue
                 return False
+    if any(p.kind == 'lt' for p in it.params) and not any("'" in f.ty for v in it.variants for f in v.fields):
+        return False
     names = [v.ident.rust() for v in it.variants]
     if len(set(names)) != len(names):
         return False
